@@ -50,6 +50,7 @@ def probes_enc(ck, rs):
                 if f.get('cdef_any'): ck.ev.probe('cdef_frame')
                 if f.get('superres'): ck.ev.probe('superres_frame')
                 if f.get('fg'): ck.ev.probe('film_grain_frame')
+                if f.get('fg') and not f.get('fg_update') and f.get('type') == 1: ck.ev.probe('film_grain_params_inherited')
         ev = r.get('events') or {}
         if ev.get('seg_multi_segment_pictures'): ck.ev.probe('multi_segment_picture', ev['seg_multi_segment_pictures'])
         if ev.get('seg_resets'): ck.ev.probe('recode_loop_taken', ev['seg_resets'])
